@@ -373,6 +373,8 @@ def check_class(fx, R, cq):
         if isinstance(a_, tuple) and str(a_[0]).endswith('::Constant') and isinstance(b_, tuple) and str(b_[0]).endswith('::Constant'):
             lo_e, hi_e = tosym(a_[1], envs), tosym(b_[1], envs)
     if lo_e is None or hi_e is None:
+        if not dlg and sc.get('body') is not None and symmetric_own_formulas(fx, R, cname, sc, fi, r, fx.rel(sc['loc'])):
+            return
         R.undecided('X3', cname + ':symmetric-form', 'delegation of the maximal-range constructor not recognised: %s' % (dlg,))
         return
     mg = margins(lo_e, hi_e, -Rg, Rg)
@@ -402,7 +404,43 @@ def _num(e):
     return v if v.is_Rational else None
 
 
-def witness_grids(fx, R, cname, g, fi, origin, count, env, l, u, r, loc):
+SYMMETRIC_GRIDS = [('-1', '1', '1/10'), ('-1003/100', '1003/100', '1/10'), ('-11/8', '11/8', 1), ('-17/5', '17/5', 1), ('-35/16', '35/16', '1/2'), ('-3/2', '3/2', '1/4'), ('-27/10', '27/10', 1),
+                   ('-5/2', '5/2', 1), ('-7/4', '7/4', '1/2'), ('-2', '2', '1/3')]
+
+
+def symmetric_own_formulas(fx, R, cname, sc, fi, r, loc):
+    """The maximal-range constructor does not delegate to the interval form: its OWN formulas (what it stores as cell count, origin and table) are evaluated exactly on symmetric witness extents [-R, R]."""
+    l, u = sp.Symbol('lower', real=True), sp.Symbol('upper', real=True)
+    pn = [p_['name'] for p_ in sc['params']]
+    if len(pn) != 2:
+        return False
+    env = {pn[0]: u, pn[1]: r, 'this.cellResolution_': r}
+    st = stmts_sx(sc)
+    for i_ in sc.get('inits', []):
+        if i_.get('field') == 'cellResolution_':
+            v_ = tosym(deep_unwrap(sx(i_['e'])), env)
+            if v_ is not None:
+                env['this.cellResolution_'] = v_
+    origin_s = count_s = None
+    for s_ in st:
+        if s_[0] == 'decl' and s_[2] is not None:
+            v_ = tosym(s_[2], env)
+            if v_ is not None:
+                env[s_[1]] = v_
+        if s_[0] == 'expr' and isinstance(s_[1], tuple) and s_[1][0] in ('.setConstant', '.fill') and len(s_[1]) == 3:
+            if s_[1][1] == 'this.numberOfCellsAlongAxes_':
+                count_s = s_[1][2]
+            if s_[1][1] == 'this.flooredMinimalPositionAlongAxes_':
+                origin_s = s_[1][2]
+    origin = tosym(origin_s, env) if origin_s is not None else None
+    count = tosym(count_s, env) if count_s is not None else None
+    if origin is None or count is None:
+        return False
+    witness_grids(fx, R, cname + ':maximal-range-form', sc, fi, origin, count, env, l, u, r, loc, grids=SYMMETRIC_GRIDS, label='GridIndexMapping:maximal-range-form:witness-grids')
+    return True
+
+
+def witness_grids(fx, R, cname, g, fi, origin, count, env, l, u, r, loc, grids=None, label='GridIndexMapping:witness-grids'):
     """X6: the constructor's own formulas (origin, cell count, table entry) and the index map, evaluated in exact rational arithmetic on witness
     extents (aligned and not, on either side of the origin, half-multiples): spacing of the centres, centre(n) -> n, and for sample points of the
     extent an index inside [0, N) whose centre is within half a resolution."""
@@ -447,7 +485,7 @@ def witness_grids(fx, R, cname, g, fi, origin, count, env, l, u, r, loc):
         R.undecided('X6', inst, 'table entry / index map not readable as per-axis formulas (entry %s, index %s)' % (entry is not None, index is not None))
         return
     bad, n_grids, n_pts = None, 0, 0
-    for (lo, hi, res) in WITNESS_GRIDS:
+    for (lo, hi, res) in (grids or WITNESS_GRIDS):
         w = {l: sp.Rational(lo), u: sp.Rational(hi), r: sp.Rational(res)}
         o, N = _num(origin.subs(w)), _num(count.subs(w))
         if o is None or N is None:
@@ -482,7 +520,7 @@ def witness_grids(fx, R, cname, g, fi, origin, count, env, l, u, r, loc):
             elif abs(q - tab[int(i_)]) > w[r] / 2:
                 bad = bad or (what, 'the point %s is %s away from the centre %s of its cell %s (more than half a resolution)' % (q, abs(q - tab[int(i_)]), tab[int(i_)], i_))
     if bad:
-        R.violated('X6', 'GridIndexMapping:witness-grids', 'on the %s, evaluating the constructor formulas and the index map exactly: %s [%s]' % (bad[0], bad[1], cname), loc, 'E-STEP')
+        R.violated('X6', label, 'on the %s, evaluating the constructor formulas and the index map exactly: %s [%s]' % (bad[0], bad[1], cname), loc, 'E-STEP')
     else:
         R.holds('X6', inst, '%d witness extents, %d sample points: centres one resolution apart, centre(n) -> n, in-extent points indexed inside [0, N) within half a resolution of their centre' % (n_grids, n_pts), loc, 'E-STEP')
 
